@@ -45,7 +45,7 @@ func NewBasicBatchedIssuer(issuersArgs ...Issuer) *BasicBatchedIssuer {
 }
 
 func (i BasicBatchedIssuer) EvaluateBatch(req *BatchedTokenRequest) ([]byte, error) {
-	RESPONSE_ERROR := []byte{0}
+	RESPONSE_ERROR := []byte{}
 
 	responses := make([][]byte, len(req.token_requests))
 	for iReq, req := range req.token_requests {
